@@ -173,7 +173,7 @@ class C10(Prop):
     id = 'C10'
     focus = 'C10'
     extracted = True      # source streams regenerated from the current source (harness/extract_m.py, Extracted/EquivC10.lean)
-    quick_cases = 1500
+    quick_cases = 4000
     thorough_cases = 25000
     quick_budget_s = 50
     rule = ('random stream DAGs (1..2 queue sources, 2..7 derived streams incl. diamonds: one source feeding several branches '
